@@ -12,7 +12,6 @@ import QlibcModel.Conf.AconfFlat
 import QlibcModel.Conf.AconfNested
 import QlibcModel.Conf.AconfMalformed
 import QlibcModel.Conf.AconfNoNl
-import QlibcModel.Conf.AconfLong
 namespace Qlibc.Props.C20
 open Qlibc Qlibc.Conf Qlibc.Conf.Aconf
 
@@ -155,9 +154,12 @@ example : ∀ x ∈ [((Ini.Item.sect [110, 101, 116]), ({ a := [32], b := [32], 
       CLOSE tag's own data (inner context, the close tag's words), not the opening directive's.
   Malformed nesting (a section still open at the end of the input, a closing tag that closes
   nothing) is `ac_malformed` below; a last line without `\n` is `ac_no_final_newline`.
-  Over-long lines: `ac_long_line_chunks_partial` says what `fgets` splits them into; that each piece is
-  then handled as a line of its own is the definition of the loop (correspondence: checks/c17 long-line
-  streams), no document-level accept/reject theorem for files with such lines.
+  Over-long lines (after the repair: the rest of a line that does not fit into the buffer is consumed):
+  a comment of any length is ignored (`ac_long_comment_ignored`; `FLineOk` has no bound for comments),
+  any other line longer than MAX_LINESIZE − 1 bytes is the error of that line
+  (`ac_long_directive_rejected`, `ac_long_line_error`, constructor `MDoc.tooLong` of `ac_malformed`).
+  Directive lines and section tags of the ACCEPTED documents are shorter than MAX_LINESIZE − 1
+  (`FLineOk`, `OpenOk`, `CloseOk`): that hypothesis is needed there, longer ones are rejected.
 -/
 
 /-- ac_callbacks: for every option table, flags, default-handler setting, callback-refusal predicate
@@ -229,7 +231,8 @@ theorem ac_accept_iff_count (cfg : Cfg) (d : AcDoc) (hok : DocOk cfg.ci d) :
     section) followed by ARBITRARY text — `parse` makes exactly the callbacks of the well-formed
     parts and of the opening tags, in file order, up to the first offence (`walkM`), and fails with
     the line of that offence: the first offending line of a well-formed part, a non-conforming /
-    refused / too deeply nested opening tag, the closing tag that closes nothing, or, when the
+    refused / too deeply nested opening tag, the closing tag that closes nothing, a non-comment line
+    that does not fit into the line buffer (`tooLong`), or, when the
     input ends inside a section, the number of the last line read ("<name> section was not
     closed."). Only `done d` at top level can be accepted (`walkM_err`). -/
 theorem ac_malformed (cfg : Cfg) (m : MDoc) (hok : MDocOk cfg.ci m none) :
@@ -285,26 +288,58 @@ theorem ac_unclosed (cfg : Cfg) (d body : AcDoc) (o : Tag) (hok : MDocOk cfg.ci 
       rw [hwwb] at hwb; simp only [] at hwb; subst hwb
       simp [FRes.shift]; omega
 
-/-- ac_long_line_chunks_partial: a line of `n` bytes (`n < (f+1)·(MAX_LINESIZE−1)`) followed by `\n`
-    is delivered by `fgets` as the pieces `splitLong f line`: `⌊n/(MAX_LINESIZE−1)⌋` full pieces of
-    `MAX_LINESIZE − 1` bytes without newline, then the remainder (possibly empty) with the newline;
-    the rest of the file is read as before. `_parse_inline` calls `fgets` once per loop round, so
-    every piece is a "line" of its own: counted in `lineno`, trimmed, tokenized and dispatched
-    separately (`ac_long_comment_tail`: the tail of an over-long comment is NOT a comment).
-    PARTIAL: the reading level only; missing is a document-level statement (`Conforms` over the
-    pieces) — the grammar theorems above require every line to be shorter than MAX_LINESIZE − 1. -/
-theorem ac_long_line_chunks_partial (f : Nat) (line rest : Bytes) (k : Nat) (hno : ∀ c ∈ line, c ≠ 10)
-    (hlen : line.length < (f + 1) * (Generated.Conf.maxLineSize - 1)) :
-    readLines ((splitLong f line).length + k) (line ++ 10 :: rest) = splitLong f line ++ readLines k rest :=
-  readLines_long f line rest k hno hlen
+/-- ac_long_comment_ignored: a comment line of ANY length — white space, a `#` within the first
+    `MAX_LINESIZE − 1` bytes, then any text without newline / NUL, e.g. text that looks like a
+    registered directive behind the 4095th byte — in any section, terminated by a newline or by the
+    end of the file, contributes no callback and counts as exactly one line: the loop continues with
+    the text behind its newline and `lineno + 1`. (The document-level theorems `ac_callbacks`,
+    `ac_accept_iff`, `ac_malformed` allow such comments too: `FLineOk` puts no bound on a comment's
+    length.) -/
+theorem ac_long_comment_ignored (cfg : Cfg) (fuel sid : Nat) (parent : Option CbData) (oc ns ln : Nat) (evs : List Event)
+    (ws text tail : Bytes) (hws : WsRun ws) (htext : ∀ c ∈ text, c ≠ 10 ∧ c ≠ 0)
+    (hlen : ws.length + 1 < Generated.Conf.maxLineSize) (htail : tail = [] ∨ ∃ rest, tail = 10 :: rest)
+    (hnl : tail = [] → Generated.Conf.maxLineSize - 1 ≤ (ws ++ [35] ++ text).length) :
+    parseInline cfg (fuel + 1) sid parent oc ns ⟨ws ++ [35] ++ text ++ tail, ln, evs⟩ =
+      parseInline cfg fuel sid parent oc ns ⟨tail.drop 1, ln + 1, evs⟩ :=
+  parseInline_comment cfg fuel sid parent oc ns ln evs ws text tail hws htext hlen htail hnl
 
-theorem ac_long_comment_tail (cfg : Cfg) (fuel sid : Nat) (parent : Option CbData) (oc ns ln : Nat) (evs : List Event)
-    (body rest : Bytes) (hno : ∀ c ∈ body, c ≠ 10 ∧ c ≠ 0)
-    (hlen : Generated.Conf.maxLineSize - 1 ≤ (35 :: body).length) :
-    parseInline cfg (fuel + 1) sid parent oc ns ⟨35 :: body ++ 10 :: rest, ln, evs⟩ =
-      parseInline cfg fuel sid parent oc ns
-        ⟨(35 :: body).drop (Generated.Conf.maxLineSize - 1) ++ 10 :: rest, ln + 1, evs⟩ :=
-  long_comment_tail cfg fuel sid parent oc ns ln evs body rest hno hlen
+/-- ac_long_directive_rejected, at the loop: a line of more than `MAX_LINESIZE − 1` bytes that is no
+    comment (directive, section tag, anything whose first non-blank byte is not `#`), in any section,
+    with or without a final newline, ends the parse with −1 and the message "Line is too long."
+    naming that line; no callback is made for it and the callbacks made before are kept -/
+theorem ac_long_line_error (cfg : Cfg) (fuel sid : Nat) (parent : Option CbData) (oc ns ln : Nat) (evs : List Event)
+    (line tail : Bytes) (hok : LongOk line) (htail : tail = [] ∨ ∃ rest, tail = 10 :: rest) :
+    parseInline cfg (fuel + 1) sid parent oc ns ⟨line ++ tail, ln, evs⟩ =
+      .ok (⟨tail.drop 1, ln + 1, evs⟩, .err (ln + 1) (str "Line is too long.")) :=
+  parseInline_tooLong cfg fuel sid parent oc ns ln evs line tail hok.1 hok.2.1 hok.2.2 htail
+
+/-- ac_long_directive_rejected, for documents: well-formed conforming text `d` (arbitrary nesting
+    inside it), then an over-long non-comment line, then ARBITRARY text: `parse` returns −1 naming
+    the line of the over-long line, after exactly the callbacks of `d`. (`ac_malformed` is the same
+    statement inside unclosed sections and with non-conforming prefixes.) -/
+theorem ac_long_directive_rejected (cfg : Cfg) (d : AcDoc) (line tail : Bytes)
+    (hok : MDocOk cfg.ci (.tooLong d line tail) none) (hc : Conforms cfg d Ctx.root 0) :
+    (parse cfg (renderM (.tooLong d line tail))).map (fun x => (x.1, x.2.toF)) =
+      .ok (callbacks cfg d, .errLine (d.lines + 1)) := by
+  rw [ac_malformed cfg _ hok]
+  have hw : (walk cfg d Ctx.root 0).2 = none := (walk_conforms cfg d Ctx.root 0).mpr hc
+  simp only [walkM, callbacks]
+  cases hww : walk cfg d Ctx.root 0 with
+  | mk es r => rw [hww] at hw; simp only [] at hw; subst hw; rfl
+
+/-- non-vacuity: `A` followed by 4096 `a` is a line that does not fit and is no comment -/
+example : LongOk (65 :: List.replicate 4096 97) := by
+  refine ⟨?_, ?_, ?_⟩
+  · intro c hc
+    rcases List.mem_cons.mp hc with rfl | h
+    · decide
+    · rw [List.eq_of_mem_replicate h]; decide
+  · rw [List.length_cons, List.length_replicate]; decide
+  · have hk : Generated.Conf.maxLineSize - 1 = 4094 + 1 := by decide
+    rw [hk, List.take_succ_cons]
+    obtain ⟨ys, hy⟩ := Ini.trim_head [] ((List.replicate 4096 97).take 4094) 65 (by simp) (by decide)
+    simp only [List.nil_append] at hy
+    rw [hy]; simp
 
 /-- ac_no_final_newline: if the text after the last `\n` of a file is non-empty, has no `\n` and is
     shorter than MAX_LINESIZE − 1, `parse` returns exactly what it returns for the file with a
